@@ -1,0 +1,38 @@
+//go:build verif
+
+package crypto
+
+// Contracts for the deductive verifier in /verif (govc). Comment-only file.
+
+//@ // ---- C19: keys, framing (nonce || box), and what a successful decryption means --------------------------------------
+//@ // an acceptable key: present, 32 bytes, not all zero
+//@ pure func keyOK(key []byte) bool = key != nil && len(key) == 32 && (exists i int :: 0 <= i && i < len(key) && key[i] != 0)
+//@ func validateKey
+//@   ensures [C19] spec: (result == nil) == keyOK(key)
+//@   ensures [C09] total: true
+//@   assigns [C20] nothing
+//@   loop 0: invariant 0 <= k && k <= len(key)
+//@   loop 0: invariant forall j int :: 0 <= j && j < k ==> key[j] == 0
+//@           decreases len(key) - k
+//@
+//@ // the stored value is a nonce of 24 bytes drawn from the system's random source during this call, followed by the
+//@ // secretbox of the plaintext under that nonce and the key
+//@ func EncryptWithKey
+//@   ensures [C19] key: result1 == nil ==> keyOK(key)
+//@   ensures [C19] framing: result1 == nil ==> (exists n string :: len(n) == 24 && delivered(rand.Reader) == old(delivered(rand.Reader)) ++ n && bytes(result0) == n ++ sbBox(bytes(data), n, bytes(key)))
+//@   ensures [C19] rejected: result1 != nil ==> result0 == nil
+//@   ensures [C09] total: true
+//@
+//@ // a value is returned only if the key is acceptable and the part after the first 24 bytes authenticates under
+//@ // (those 24 bytes, the key); the value is then the opened message
+//@ func DecryptStringWithKey
+//@   ensures [C19] key: result1 == nil ==> keyOK(key)
+//@   ensures [C19] opened: result1 == nil ==> len(data) >= 24 && sbOpenOK(substr(bytes(data), 24, len(data)), substr(bytes(data), 0, 24), bytes(key)) && bytes(result0) == sbOpenMsg(substr(bytes(data), 24, len(data)), substr(bytes(data), 0, 24), bytes(key))
+//@   ensures [C19] rejected: result1 != nil ==> result0 == nil
+//@   ensures [C09] total: true
+//@
+//@ // decrypting what was encrypted under the same key gives back the plaintext (from the two contracts and secretbox's correctness)
+//@ lemma [C19] roundtrip(m string, n string, k string):
+//@     len(n) == 24 ==> substr(n ++ sbBox(m, n, k), 0, 24) == n && substr(n ++ sbBox(m, n, k), 24, len(n ++ sbBox(m, n, k))) == sbBox(m, n, k)
+//@       && sbOpenOK(sbBox(m, n, k), n, k) && sbOpenMsg(sbBox(m, n, k), n, k) == m
+//@   use sb_seal_open
